@@ -368,6 +368,9 @@ impl<T: Serializable + Deserializable> SerOps for SerOf<T> {
 /// Memory images of a value's slot before and after `drop_in_place`, with the secrets it held
 #[derive(Clone, Debug)]
 pub struct DropImage {
+    /// the slot right after the value was moved in, before any operation
+    pub fresh: Vec<u8>,
+    /// the slot after the operations, immediately before the drop
     pub before: Vec<u8>,
     pub after: Vec<u8>,
     /// (name, value, offset of the live field inside the slot as reported by the accessor's pointer)
@@ -380,7 +383,26 @@ fn image_of<T>(slot: &MaybeUninit<T>) -> Vec<u8> {
 }
 
 /// `fields` returns, for the value at its final address, the byte slices of the secrets it holds
-fn drop_probe<T>(v: T, fields: impl for<'a> Fn(&'a T) -> Vec<(&'static str, &'a [u8])>) -> DropImage {
+/// How a probed value is used and dropped
+#[derive(Clone, Copy, Debug, Default)]
+pub struct ProbePlan {
+    /// number of operations performed on the value in place before the drop (contexts: seal /
+    /// failing open of a short message)
+    pub ops: u8,
+    /// drop the value while its thread is unwinding from a (caught) panic
+    pub unwinding: bool,
+}
+
+struct DropGuard<T>(*mut T);
+impl<T> Drop for DropGuard<T> {
+    fn drop(&mut self) {
+        unsafe { std::ptr::drop_in_place(self.0) }
+    }
+}
+
+/// `fields` returns, for the value at its final address, the byte slices of the secrets it holds;
+/// `op` performs one operation on the value in place
+fn drop_probe<T>(v: T, plan: ProbePlan, fields: impl for<'a> Fn(&'a T) -> Vec<(&'static str, &'a [u8])>, mut op: impl FnMut(&mut T, u8)) -> DropImage {
     let mut slot: Box<MaybeUninit<T>> = Box::new(MaybeUninit::uninit());
     unsafe {
         std::ptr::write_bytes(slot.as_mut_ptr() as *mut u8, 0xa5, std::mem::size_of::<T>());
@@ -391,10 +413,24 @@ fn drop_probe<T>(v: T, fields: impl for<'a> Fn(&'a T) -> Vec<(&'static str, &'a 
         let r: &T = unsafe { slot.assume_init_ref() };
         fields(r).into_iter().map(|(n, b)| (n, b.to_vec(), (b.as_ptr() as usize).wrapping_sub(base))).collect()
     };
+    let fresh = image_of(&slot);
+    for k in 0..plan.ops {
+        let r: &mut T = unsafe { slot.assume_init_mut() };
+        op(r, k);
+    }
     let before = image_of(&slot);
-    unsafe { std::ptr::drop_in_place(slot.as_mut_ptr()) };
+    let ptr = slot.as_mut_ptr();
+    if plan.unwinding {
+        // the value's Drop runs from a guard while the thread is panicking; the panic is caught
+        let _ = std::panic::catch_unwind(std::panic::AssertUnwindSafe(|| {
+            let _g = DropGuard(ptr);
+            panic!("c16 probe: drop during unwinding");
+        }));
+    } else {
+        unsafe { std::ptr::drop_in_place(ptr) };
+    }
     let after = image_of(&slot);
-    DropImage { before, after, secrets }
+    DropImage { fresh, before, after, secrets }
 }
 
 pub type KeyPairBytes = (Vec<u8>, Vec<u8>);
@@ -425,10 +461,10 @@ pub trait DynSuite: Send + Sync {
     fn ser(&self, kind: SerKind) -> Box<dyn SerOps>;
 
     // drop probes (C16)
-    fn probe_drop_sender(&self, mode: &ModeS, pk_r: &[u8], info: &[u8], rng: &mut ScriptRng) -> Result<DropImage, Fail>;
-    fn probe_drop_receiver(&self, mode: &ModeR, sk_r: &[u8], enc: &[u8], info: &[u8]) -> Result<DropImage, Fail>;
-    fn probe_drop_shared_secret(&self, pk_r: &[u8], sender: Option<(&[u8], &[u8])>, rng: &mut ScriptRng) -> Result<DropImage, Fail>;
-    fn probe_drop_shared_secret_decap(&self, sk_r: &[u8], pk_s: Option<&[u8]>, enc: &[u8]) -> Result<DropImage, Fail>;
+    fn probe_drop_sender(&self, mode: &ModeS, pk_r: &[u8], info: &[u8], rng: &mut ScriptRng, plan: ProbePlan) -> Result<DropImage, Fail>;
+    fn probe_drop_receiver(&self, mode: &ModeR, sk_r: &[u8], enc: &[u8], info: &[u8], plan: ProbePlan) -> Result<DropImage, Fail>;
+    fn probe_drop_shared_secret(&self, pk_r: &[u8], sender: Option<(&[u8], &[u8])>, rng: &mut ScriptRng, plan: ProbePlan) -> Result<DropImage, Fail>;
+    fn probe_drop_shared_secret_decap(&self, sk_r: &[u8], pk_s: Option<&[u8]>, enc: &[u8], plan: ProbePlan) -> Result<DropImage, Fail>;
 }
 
 pub struct Adapter<A, Kdf, Kem> {
@@ -531,29 +567,61 @@ where
         }
     }
 
-    fn probe_drop_sender(&self, mode: &ModeS, pk_r: &[u8], info: &[u8], rng: &mut ScriptRng) -> Result<DropImage, Fail> {
+    fn probe_drop_sender(&self, mode: &ModeS, pk_r: &[u8], info: &[u8], rng: &mut ScriptRng, plan: ProbePlan) -> Result<DropImage, Fail> {
         let m = build_mode_s::<Kem>(mode)?;
         let pk_r: Kem::PublicKey = parse("pk_r", pk_r)?;
         let (_, ctx) = hpke::setup_sender::<A, Kdf, Kem, _>(&m, &pk_r, info, rng).map_err(Fail::Hpke)?;
-        Ok(drop_probe(ctx, |c| vec![("base_nonce", c.verif_base_nonce()), ("exporter_secret", c.verif_exporter_secret())]))
+        let sealing = A::AEAD_ID != 0xffff;
+        Ok(drop_probe(
+            ctx,
+            plan,
+            |c| vec![("base_nonce", c.verif_base_nonce()), ("exporter_secret", c.verif_exporter_secret())],
+            |c, k| {
+                if sealing {
+                    let mut buf = [0x33u8; 5];
+                    let _ = c.seal_in_place_detached(&mut buf, &[k]);
+                } else {
+                    let mut out = [0u8; 8];
+                    let _ = c.export(&[k], &mut out);
+                }
+            },
+        ))
     }
-    fn probe_drop_receiver(&self, mode: &ModeR, sk_r: &[u8], enc: &[u8], info: &[u8]) -> Result<DropImage, Fail> {
+    fn probe_drop_receiver(&self, mode: &ModeR, sk_r: &[u8], enc: &[u8], info: &[u8], plan: ProbePlan) -> Result<DropImage, Fail> {
         let m = build_mode_r::<Kem>(mode)?;
         let sk_r: Kem::PrivateKey = parse("sk_r", sk_r)?;
         let enc: Kem::EncappedKey = parse("enc", enc)?;
         let ctx = hpke::setup_receiver::<A, Kdf, Kem>(&m, &sk_r, &enc, info).map_err(Fail::Hpke)?;
-        Ok(drop_probe(ctx, |c| vec![("base_nonce", c.verif_base_nonce()), ("exporter_secret", c.verif_exporter_secret())]))
+        let sealing = A::AEAD_ID != 0xffff;
+        Ok(drop_probe(
+            ctx,
+            plan,
+            |c| vec![("base_nonce", c.verif_base_nonce()), ("exporter_secret", c.verif_exporter_secret())],
+            |c, k| {
+                if sealing {
+                    // a rejected delivery still makes the receiver compute the nonce for its position
+                    let mut buf = [0x44u8; 5];
+                    let tag = AeadTag::<A>::from_bytes(&[k; 16]);
+                    if let Ok(t) = tag {
+                        let _ = c.open_in_place_detached(&mut buf, &[k], &t);
+                    }
+                } else {
+                    let mut out = [0u8; 8];
+                    let _ = c.export(&[k], &mut out);
+                }
+            },
+        ))
     }
-    fn probe_drop_shared_secret(&self, pk_r: &[u8], sender: Option<(&[u8], &[u8])>, rng: &mut ScriptRng) -> Result<DropImage, Fail> {
+    fn probe_drop_shared_secret(&self, pk_r: &[u8], sender: Option<(&[u8], &[u8])>, rng: &mut ScriptRng, plan: ProbePlan) -> Result<DropImage, Fail> {
         let pk_r: Kem::PublicKey = parse("pk_r", pk_r)?;
         let pair: Option<(Kem::PrivateKey, Kem::PublicKey)> = match sender {
             Some((sk, pk)) => Some((parse("sk_s", sk)?, parse("pk_s", pk)?)),
             None => None,
         };
         let (ss, _) = Kem::encap(&pk_r, pair.as_ref().map(|(a, b)| (a, b)), rng).map_err(Fail::Hpke)?;
-        Ok(drop_probe(ss, |s| vec![("shared_secret", &s.0[..])]))
+        Ok(drop_probe(ss, plan, |s| vec![("shared_secret", &s.0[..])], |_, _| {}))
     }
-    fn probe_drop_shared_secret_decap(&self, sk_r: &[u8], pk_s: Option<&[u8]>, enc: &[u8]) -> Result<DropImage, Fail> {
+    fn probe_drop_shared_secret_decap(&self, sk_r: &[u8], pk_s: Option<&[u8]>, enc: &[u8], plan: ProbePlan) -> Result<DropImage, Fail> {
         let sk_r: Kem::PrivateKey = parse("sk_r", sk_r)?;
         let pk_s: Option<Kem::PublicKey> = match pk_s {
             Some(b) => Some(parse("pk_s", b)?),
@@ -561,7 +629,7 @@ where
         };
         let enc: Kem::EncappedKey = parse("enc", enc)?;
         let ss = Kem::decap(&sk_r, pk_s.as_ref(), &enc).map_err(Fail::Hpke)?;
-        Ok(drop_probe(ss, |s| vec![("shared_secret", &s.0[..])]))
+        Ok(drop_probe(ss, plan, |s| vec![("shared_secret", &s.0[..])], |_, _| {}))
     }
 }
 
